@@ -111,17 +111,23 @@ package fasthttp
 //@   property C24 C25
 //@   mode skeleton
 //@   ghost released int = 0
+//@   ghost settled bool = false
+//   The reader count is given back last: that decrement may be the one that lets fsFile.Release close every handle it
+//   knows of, so the reader's own handle has to be in the file's pool (or closed) by then.
 //@   on call fsFile.decReadersCount:
 //@     nohavoc
+//@     requires[own-handle-parked-or-closed-first] settled
 //@     effect released = released + 1
 //@   on call io.Seeker.Seek -> n, e:
 //@     nohavoc
 //@   on call fs.File.Close -> e:
 //@     nohavoc
+//@     effect settled = true
 //@   on call sync.Mutex.Lock:
 //@     nohavoc
 //@   on call sync.Mutex.Unlock:
 //@     nohavoc
+//@     effect settled = true
 //@   end
 //@   ensures[pooled-reader-is-rewound] err == nil ==> r.r == r.f
 //@   ensures[reader-count-released-once] released == 1
@@ -224,3 +230,25 @@ package fasthttp
 //@   end
 //@   ensures[within-range] r.startPos <= r.endPos || old(r.startPos) > old(r.endPos)
 //@   ensures[advanced-by-n] r.startPos == old(r.startPos) + n && 0 <= n
+
+// compressFileNolock (C24): the compressed copy that is cached on disk must carry the modification time of the file it
+// was made from -- Last-Modified, If-Modified-Since and the staleness check of openFSFile all read it -- and it only
+// becomes visible under its final name after that time was set.
+//@ func fsHandler.compressFileNolock results ff err
+//@   property C24
+//@   mode skeleton
+//@   ghost modSeen bool = false
+//@   ghost modWall int = 0
+//@   ghost modExt int = 0
+//@   ghost stamped bool = false
+//@   on call fs.FileInfo.ModTime -> t:
+//@     nohavoc
+//@     effect modSeen = true; modWall = t.wall; modExt = t.ext
+//@   on call os.Chtimes(_, at, mt) -> e:
+//@     nohavoc
+//@     requires[compressed-copy-gets-the-files-mtime] modSeen && mt.wall == modWall && mt.ext == modExt
+//@     effect stamped = (e == nil)
+//@   on call os.Rename -> e:
+//@     nohavoc
+//@     requires[visible-only-after-the-mtime-is-set] stamped
+//@   end
